@@ -271,18 +271,30 @@ impl TreeSys for Numeric {
 struct Pairs {
     alpha: Vec<X>,
     max_len: usize,
+    /// the masked sums and means on an alphabet with infinite observations (family pairs-inf)
+    inf: bool,
 }
 impl Pairs {
     fn check_word(&self, word: &[u8], ctx: &mut Ctx) {
         let k = self.alpha.len();
         let a: Vec<X> = word.iter().map(|s| self.alpha[*s as usize / k]).collect();
         let b: Vec<X> = word.iter().map(|s| self.alpha[*s as usize % k]).collect();
-        let name = "pairs";
+        let name = if self.inf { "pairs-inf" } else { "pairs" };
         ctx.fam(name).states += 1;
         ctx.nontrivial(name, hash_bytes(word));
         // masks are boolean: only 0 / 1 / null can be cast to bool (anything else is the documented panic)
         let mask: Vec<X> = b.iter().map(|m| m.map(|v| if v != 0.0 { 1.0 } else { 0.0 })).collect();
+        if self.inf {
+            // +inf and -inf selected together: the sum is not a number under every order; not claimed
+            let sel: Vec<f64> = a.iter().zip(&mask).filter(|(_, m)| matches!(m, Some(t) if *t != 0.0)).filter_map(|(v, _)| *v).collect();
+            if sel.contains(&f64::INFINITY) && sel.contains(&f64::NEG_INFINITY) {
+                return;
+            }
+        }
         for op in pair_ops(a.len()) {
+            if self.inf && !matches!(op, AggOp::NVSumFilter | AggOp::NSumFilter | AggOp::VMeanFilter(_)) {
+                continue;
+            }
             let b = if matches!(op, AggOp::NVSumFilter | AggOp::NSumFilter | AggOp::VMeanFilter(_)) { &mask } else { &b };
             let model = agg_model(op, &a, b);
             for (tname, run) in [("f64", run_agg_valid::<f64> as RunV), ("Option<f64>", run_agg_valid::<Option<f64>> as RunV), ("Option<i32>", run_agg_valid::<Option<i32>> as RunV)] {
@@ -292,7 +304,7 @@ impl Pairs {
                         Some(g) => g,
                     };
                     ctx.eval(name, outcome_hash(&got));
-                    if tname == "f64" && src == Source::TIter {
+                    if tname == "f64" && src == Source::TIter && !self.inf {
                         check_scaling(name, word, op, &a, b, &got, &model, ctx);
                     }
                     if let Some((exp, g)) = judge(&got, &model, cmp_of(op)) {
@@ -307,6 +319,9 @@ impl Pairs {
                     }
                 }
             }
+        }
+        if self.inf {
+            return;
         }
         // the convenience wrapper vcorr(other, min_periods: Option, method): omitted min_periods = len / 2
         let len = a.len();
@@ -509,7 +524,9 @@ fn main() {
         order_only: false,
         no_elem_sums: true,
     };
-    let pairs = Pairs { alpha: vec![None, Some(0.0), Some(1.0), Some(3.0)], max_len: run.pick(4, 5) };
+    let pairs = Pairs { alpha: vec![None, Some(0.0), Some(1.0), Some(3.0)], max_len: run.pick(4, 5), inf: false };
+    // the mask is the second component (0 / non-zero / null); the first carries the infinities
+    let pairs_inf = Pairs { alpha: vec![None, Some(f64::NEG_INFINITY), Some(0.0), Some(1.0), Some(f64::INFINITY)], max_len: run.pick(3, 4), inf: true };
     let bools = Bools { max_len: run.pick(7, 11) };
     if let Some(path) = &run.replay {
         let stored = load_replay(path).unwrap_or_else(|e| {
@@ -521,6 +538,7 @@ fn main() {
         let word = syms_from_json(&case["word"]);
         match case["family"].as_str().unwrap_or("") {
             "pairs" => pairs.check_word(&word, &mut ctx),
+            "pairs-inf" => pairs_inf.check_word(&word, &mut ctx),
             "bools" => bools.check_word(&word, &mut ctx),
             "numeric-wide" => wide.check_word(&word, &mut ctx),
             "numeric-inf" => inf.check_word(&word, &mut ctx),
@@ -538,6 +556,7 @@ fn main() {
     total.merge(explore_tree(&nan, run.threads));
     total.merge(aggs_long(!run.quick(), run.threads));
     total.merge(explore_tree(&pairs, run.threads));
+    total.merge(explore_tree(&pairs_inf, run.threads));
     total.merge(explore_tree(&bools, run.threads));
     let meta = Meta {
         rule: "history tree of every word over the value alphabet (numeric), over {null,0,1,3}^2 (two-series and masked aggregations), over {null,T,F} (any/all); every aggregation, every min_periods 0..=len+1, element types f64/f32/i32/Option<f64>/Option<i32>, sources owned / borrowed iterator / option view; compared with two-pass textbook definitions on the non-null sub-list, plus the permutation relation agg(word) == agg(sorted word) for the symmetric ones. Non-trivial = word with a non-null element. Also (DESIGN 5.15, 5.16): infinite observations for counts, positions and extrema (numeric-inf); NaN kinds (numeric-nan-kinds); sources of unknown announced length (filtered: hint (0,n); flat-mapped: hint (0,None)); i32 series whose sum leaves the type (numeric-wide-sum, aggregations with an f64 result). Round 8 (DESIGN 5.17): the convenience wrapper vcorr(other, min_periods: Option, Pearson) for omitted min_periods and 0..=len+1.".into(),
